@@ -10,57 +10,100 @@ From Verif Require Import Gen.C05_EllipsoidFlow.
 Import ListNotations.
 Open Scope string_scope.
 
-Inductive kind := KPos | KPosVel.
+(* Position, PosVel, PositionDelta, PosVelDelta, Velocity (posvel.vel), VelocityDelta (posveldelta.vel).  The tag of a
+   delta / velocity is the ellipsoid of its reference position (it has none of its own). *)
+Inductive kind := KPos | KPosVel | KDelta | KPvDelta | KVel | KVelDelta.
 
 Inductive op :=
-| OConvert      (* .llh / .trs / .kepler       : PosBase.to_system -> <Class>.convert_to *)
-| OGetitem      (* obj[i], obj[a:b]            : PositionArray.__getitem__ (PosVelArray inherits it) *)
-| OSubset       (* obj.subset(idx, memo)       : PositionArray.subset (inherited) *)
-| ODeepcopy     (* copy.deepcopy(obj)          : <Class>.__deepcopy__ -> <Class>.create *)
-| OAddDelta     (* obj + delta                 : self.from_position -> PositionArray.from_position *)
-| OSubDelta     (* obj - delta                 : the same *)
-| ODiffRef      (* (obj - other).ref_pos       : PositionDeltaArray.from_position(ref_pos = obj) *)
-| OInsert       (* Class.insert(obj, i, other) : PositionArray.insert (inherited); keeps obj's ellipsoid *)
-| OPos          (* posvel.pos                  : PosVelArray.pos; the identity on a Position *)
+| OConvert      (* .llh / .trs / .kepler / delta.enu / .acr : PosBase.to_system -> <Class>.convert_to; for a velocity (no
+                   conversion is registered) the classmethod <Velocity class>.convert_to(vel, identity) called directly *)
+| OGetitem      (* obj[i], obj[a:b]            : <Class>.__getitem__ (a delta slices its ref_pos too) *)
+| OSubset       (* obj.subset(idx, memo)       : <Class>.subset (a delta subsets its ref_pos too) *)
+| ODeepcopy     (* copy.deepcopy(obj)          : <Class>.__deepcopy__ -> <Class>.create (a delta copies its ref_pos too) *)
+| OAddDelta     (* pos + delta : self.from_position;  delta + delta : from_position_delta *)
+| OSubDelta     (* the same with - *)
+| ODiffRef      (* (obj - other).ref_pos       : PositionDeltaArray.from_position(ref_pos = obj); back on obj *)
+| OInsert       (* Class.insert(obj, i, other) : <Class>.insert; keeps obj's ellipsoid (a delta inserts into its ref_pos too) *)
+| OPos          (* posvel.pos / posveldelta.pos; the identity on a Position / PositionDelta *)
 | OView         (* obj[[i, j]], obj.copy()     : plain ndarray derivation -> __array_finalize__ *)
-| OCreate       (* Position(obj.val, obj.system, ellipsoid = obj.ellipsoid) : the factory <Class>.create *)
-| OEmptyFrom    (* PositionArray.empty_from(obj): NaN array "of the same type" (used by insert for missing attributes) *)
-| OFromPosvel.  (* PosVelArray.from_posvel(val, obj); the identity on a Position *)
+| OCreate       (* Position(obj.val, obj.system, ellipsoid = obj.ellipsoid) / PositionDelta(val, system, ref_pos) : <Class>.create *)
+| OEmptyFrom    (* PositionArray.empty_from(obj); PositionDeltaArray.empty_from(stub with .ref_pos/.system/.shape/.ellipsoid) *)
+| OFromPosvel   (* PosVelArray.from_posvel(val, obj) *)
+| ODiff         (* obj - other                 : PositionDeltaArray.from_position; the result is the delta *)
+| ORefPos       (* delta.ref_pos / vel.ref_pos : attribute access *)
+| OVel          (* posvel.vel (ref_pos = self.pos) / posveldelta.vel *)
+| OWriteRead.   (* Dataset.add_<type>(obj); write; Dataset.read(...).<field> : <Class>._read -> <Class>.create *)
 
 Definition op_eqb (a b : op) : bool :=
   match a, b with
   | OConvert, OConvert | OGetitem, OGetitem | OSubset, OSubset | ODeepcopy, ODeepcopy | OAddDelta, OAddDelta
   | OSubDelta, OSubDelta | ODiffRef, ODiffRef | OInsert, OInsert | OPos, OPos | OView, OView | OCreate, OCreate
-  | OEmptyFrom, OEmptyFrom | OFromPosvel, OFromPosvel => true
+  | OEmptyFrom, OEmptyFrom | OFromPosvel, OFromPosvel | ODiff, ODiff | ORefPos, ORefPos | OVel, OVel
+  | OWriteRead, OWriteRead => true
   | _, _ => false
   end.
 
 Definition all_ops : list op :=
-  [OConvert; OGetitem; OSubset; ODeepcopy; OAddDelta; OSubDelta; ODiffRef; OInsert; OPos; OView; OCreate; OEmptyFrom; OFromPosvel].
+  [OConvert; OGetitem; OSubset; ODeepcopy; OAddDelta; OSubDelta; ODiffRef; OInsert; OPos; OView; OCreate; OEmptyFrom; OFromPosvel;
+   ODiff; ORefPos; OVel; OWriteRead].
+Definition all_kinds : list kind := [KPos; KPosVel; KDelta; KPvDelta; KVel; KVelDelta].
 
-(* the constructor call sites the result of an operation is built through *)
+(* the constructor call sites the result of an operation is built through ([] = not applicable / no constructor involved) *)
 Definition sites (k : kind) (o : op) : list string :=
   match o, k with
   | OConvert, KPos => ["PositionArray.convert_to#0"]
   | OConvert, KPosVel => ["PosVelArray.convert_to#0"]
-  | OGetitem, _ => ["PositionArray.__getitem__#0"]
-  | OSubset, _ => ["PositionArray.subset#0"]
+  | OConvert, (KDelta | KPvDelta) => ["PositionDeltaArray.convert_to#0"]
+  | OConvert, KVel => ["VelocityArray.convert_to#0"]
+  | OConvert, KVelDelta => ["VelocityDeltaArray.convert_to#0"]
+  | OGetitem, (KPos | KPosVel) => ["PositionArray.__getitem__#0"]
+  | OGetitem, (KDelta | KPvDelta) => ["PositionDeltaArray.__getitem__#0"; "PositionArray.__getitem__#0"]
+  | OSubset, (KPos | KPosVel) => ["PositionArray.subset#0"]
+  | OSubset, (KDelta | KPvDelta) => ["PositionDeltaArray.subset#0"; "PositionArray.subset#0"]
   | ODeepcopy, KPos => ["PositionArray.__deepcopy__#0"; "PositionArray.create#0"]
   | ODeepcopy, KPosVel => ["PosVelArray.__deepcopy__#0"; "PosVelArray.create#0"]
-  | OAddDelta, _ | OSubDelta, _ => ["PositionArray.from_position#0"]
-  | ODiffRef, _ => ["PositionDeltaArray.from_position#0"]
-  | OInsert, _ => ["PositionArray.insert#0"]
-  | OPos, KPos => []
+  | ODeepcopy, KDelta => ["PositionDeltaArray.__deepcopy__#0"; "PositionDeltaArray.create#0";
+                          "PositionArray.__deepcopy__#0"; "PositionArray.create#0"]
+  | ODeepcopy, KPvDelta => ["PosVelDeltaArray.__deepcopy__#0"; "PosVelDeltaArray.create#0";
+                            "PosVelArray.__deepcopy__#0"; "PosVelArray.create#0"]
+  | (OAddDelta | OSubDelta), (KPos | KPosVel) => ["PositionArray.from_position#0"]
+  | (OAddDelta | OSubDelta), (KDelta | KPvDelta) => ["PositionDeltaArray.from_position_delta#0"]
+  | (ODiffRef | ODiff), (KPos | KPosVel) => ["PositionDeltaArray.from_position#0"]
+  | OInsert, (KPos | KPosVel) => ["PositionArray.insert#0"]
+  | OInsert, (KDelta | KPvDelta) => ["PositionDeltaArray.insert#0"; "PositionArray.insert#0"]
   | OPos, KPosVel => ["PosVelArray.pos#0"]
-  | OView, _ => ["PositionArray.__array_finalize__#0"]
+  | OPos, KPvDelta => ["PosVelDeltaArray.pos#0"]
+  | OVel, KPosVel => ["PosVelArray.vel#0"; "PosVelArray.pos#0"]
+  | OVel, KPvDelta => ["PosVelDeltaArray.vel#0"]
+  | OView, (KPos | KPosVel) => ["PositionArray.__array_finalize__#0"]
   | OCreate, KPos => ["PositionArray.create#0"]
   | OCreate, KPosVel => ["PosVelArray.create#0"]
-  | OEmptyFrom, _ => ["PositionArray.empty_from#0"]
-  | OFromPosvel, KPos => []
+  | OCreate, KDelta => ["PositionDeltaArray.create#0"]
+  | OCreate, KPvDelta => ["PosVelDeltaArray.create#0"]
+  | OEmptyFrom, KPos => ["PositionArray.empty_from#0"]
+  | OEmptyFrom, KDelta => ["PositionDeltaArray.empty_from#0"; "PositionDeltaArray.empty_from#1"]
   | OFromPosvel, KPosVel => ["PosVelArray.from_posvel#0"]
+  | OWriteRead, KPos => ["PositionArray._read#0"; "PositionArray.create#0"]
+  | OWriteRead, KPosVel => ["PosVelArray._read#0"; "PosVelArray.create#0"]
+  | OWriteRead, KDelta => ["PositionDeltaArray._read#0"; "PositionDeltaArray.create#0";
+                           "PositionArray._read#0"; "PositionArray.create#0"]
+  | OWriteRead, KPvDelta => ["PosVelDeltaArray._read#0"; "PosVelDeltaArray.create#0";
+                             "PosVelArray._read#0"; "PosVelArray.create#0"]
+  | _, _ => []
   end.
 
-Definition kind_after (k : kind) (o : op) : kind := match o with OPos => KPos | _ => k end.
+Definition kind_after (k : kind) (o : op) : kind :=
+  match o, k with
+  | OPos, KPosVel => KPos
+  | OPos, KPvDelta => KDelta
+  | ODiff, KPos => KDelta
+  | ODiff, KPosVel => KPvDelta
+  | ORefPos, (KDelta | KVel) => KPos
+  | ORefPos, (KPvDelta | KVelDelta) => KPosVel
+  | OVel, KPosVel => KVel
+  | OVel, KPvDelta => KVelDelta
+  | _, _ => k
+  end.
 
 Definition table := list (string * bool).
 
@@ -85,7 +128,7 @@ Definition spec_run (ops : list op) (s : state) : state := fold_left spec_step o
 
 (* every site of the table forwards, and the table knows every site the model uses *)
 Definition model_sites : list string :=
-  flat_map (fun o => (sites KPos o ++ sites KPosVel o)%list) all_ops.
+  flat_map (fun o => flat_map (fun k => sites k o) all_kinds) all_ops.
 Fixpoint knows (tbl : table) (s : string) : bool :=
   match tbl with [] => false | (n, _) :: t => String.eqb n s || knows t s end.
 Definition table_all_true (tbl : table) : bool :=
@@ -123,9 +166,12 @@ Fixpoint nats_eqb (a b : list nat) : bool :=
   | _, _ => false
   end.
 
-Definition check_flow (c : nat * bool * nat * list op * list nat) : Z :=
-  let '(dflt, posvel, tag, ops, observed) := c in
-  let s0 : state := (if posvel then KPosVel else KPos, tag) in
+Definition kind_of_nat (n : nat) : kind :=
+  match n with 0 => KPos | 1 => KPosVel | 2 => KDelta | 3 => KPvDelta | 4 => KVel | _ => KVelDelta end.
+
+Definition check_flow (c : nat * nat * nat * list op * list nat) : Z :=
+  let '(dflt, k, tag, ops, observed) := c in
+  let s0 : state := (kind_of_nat k, tag) in
   if nats_eqb observed (tags_along spec_step s0 ops) then 0%Z
   else if nats_eqb observed (tags_along (step forwarding_table dflt) s0 ops) then 2%Z
   else 1%Z.
@@ -133,3 +179,16 @@ Definition check_flow (c : nat * bool * nat * list op * list nat) : Z :=
 (* which sites of the regenerated table drop the ellipsoid (for the report) *)
 Definition dropping_sites (tbl : table) : list string :=
   map fst (filter (fun e => negb (snd e)) tbl).
+
+(* the driver's own copy of `sites` (used for the per-site coverage report and to name the culprit site) must be this one *)
+Fixpoint strs_eqb (a b : list string) : bool :=
+  match a, b with
+  | [], [] => true
+  | x :: a', y :: b' => String.eqb x y && strs_eqb a' b'
+  | _, _ => false
+  end.
+Definition check_sites (c : nat * op * list string * nat) : Z :=
+  let '(k, o, claimed, k') := c in
+  if strs_eqb claimed (sites (kind_of_nat k) o) && Nat.eqb k'
+       (match kind_after (kind_of_nat k) o with KPos => 0 | KPosVel => 1 | KDelta => 2 | KPvDelta => 3 | KVel => 4 | KVelDelta => 5 end)
+  then 0%Z else 1%Z.
